@@ -1,18 +1,19 @@
 (* Model of pyplumio/filters.py: each filter is a step machine over (call time, value).
-   Numbers are exact multiples of 1/64 (on which CPython's float +, -, isclose are exact for
-   bounded magnitudes); strings are ids; lists are lists of integers; parameter objects are
+   Numbers are integers on the grid 2^-60 (FNum z = z / 2^60): every multiple of 1/64 of bounded magnitude and the doubles
+   0.05, 0.1, 0.2, ... are on it; the tolerance is the DOUBLE 0.1 = 3602879701896397 / 2^55 itself, so that a difference of
+   exactly one tolerance is expressible (on the values generated CPython's float -, +, isclose agree with exact arithmetic); strings are ids; lists are lists of integers; parameter objects are
    (value, min, max, pending_update). *)
 From Coq Require Import ZArith NArith List Bool.
 Import ListNotations.
 Open Scope Z_scope.
 
 Inductive fval :=
-| FNum (z : Z)                         (* z / 64 *)
+| FNum (z : Z)                         (* z / 2^60 *)
 | FStr (id : Z)
 | FList (l : list Z)
 | FParam (v lo hi : Z) (pending : bool).
 
-Definition tol64 : Z := 6.   (* |a - b| <= 0.1  <->  |a64 - b64| <= 6 *)
+Definition tol64 : Z := 115292150460684704.   (* the double 0.1 on the 2^-60 grid: 3602879701896397 * 2^5 *)
 
 Fixpoint zlist_eqb (a b : list Z) : bool :=
   match a, b with [], [] => true | x :: a', y :: b' => (x =? y) && zlist_eqb a' b' | _, _ => false end.
